@@ -142,6 +142,9 @@ def build_runs(tier, seed, prop):
         runs = drive_events.generate(N_EVENT_RUNS[tier], sub_seed(seed, "events", prop), kinds=EVENT_KINDS[prop])
         if prop == "C17":
             runs += drive_events.negative_index_runs(seed)
+        if prop == "C14":
+            # order-mistake shocks on markets whose price is zero or negative when they fire
+            runs += drive_events.generate(N_EVENT_RUNS[tier] // 3, sub_seed(seed, "events-z", prop), kinds=("mistakez",))
         if prop == "C16":
             # spec -> code: behaviours of the composed PamsSystem WITH a trading halt rule forced through the real runner
             from . import replay_system
@@ -155,6 +158,12 @@ def build_runs(tier, seed, prop):
     runs += scenarios_run.runs_for(prop, tier, seed)
     if prop in ("C05", "C10", "C11"):
         runs += drive_run.penny_runs(N_RUNS[tier] // 6, seed)
+    if prop == "C05":
+        runs += drive_run.micro_runs(N_RUNS[tier] // 6, seed)
+    if prop == "C10":
+        runs += drive_run.session_cancel_runs(N_RUNS[tier] // 6, seed)
+    if prop == "C09":
+        runs += drive_run.legacy_reuse_runs(N_RUNS[tier] // 5, seed)
     if prop in ("C05", "C06", "C09", "C10", "C11"):
         # spec -> code: TLC behaviours of PamsRunner forced through the real runner (all draws and agent programs)
         from . import replay_run
